@@ -10,11 +10,16 @@ pub struct PlanIter<I> {
     pub n: u32,
     pub panic_at: Option<u16>,
     pub hint: Option<usize>,
+    pub loose: Option<u16>,
 }
 
 impl<I> PlanIter<I> {
     pub fn new(inner: I, hint: Option<usize>, panic_at: Option<u16>) -> Self {
-        PlanIter { inner, n: 0, panic_at, hint }
+        PlanIter { inner, n: 0, panic_at, hint, loose: None }
+    }
+    pub fn loose(mut self, l: Option<u16>) -> Self {
+        self.loose = l;
+        self
     }
 }
 
@@ -31,9 +36,10 @@ impl<I: Iterator> Iterator for PlanIter<I> {
         self.inner.next()
     }
     fn size_hint(&self) -> (usize, Option<usize>) {
-        match self.hint {
-            Some(h) => (h, None),
-            None => self.inner.size_hint(),
+        match (self.hint, self.loose) {
+            (Some(h), _) => (h, None),
+            (None, Some(slack)) => (0, self.inner.size_hint().1.map(|u| u + slack as usize)),
+            (None, None) => self.inner.size_hint(),
         }
     }
 }
